@@ -293,3 +293,10 @@ package native
 //@ requires ic != nil && ic.VM != nil && ic.VM.gasConsumed != nil
 //@ call funcvalue:HFSpecificMethodAndPrice.Func requires[flags] flagsOK(ic, m.RequiredFlags, m.MD.Name)
 //@ call funcvalue:HFSpecificMethodAndPrice.DeferrableFunc requires[flags] flagsOK(ic, m.RequiredFlags, m.MD.Name)
+
+// (C04) Policy setters write the layer's own copy of the cache, never a cache obtained read-only.
+//@ prop C04
+//@ func (*Policy).setWhitelistFeeContract
+//@ may-panic
+//@ opt frame off
+//@ requires p != nil && ic != nil && ic.DAO != nil
